@@ -126,6 +126,17 @@ def write_config(dirpath, shares):
         f.write(HOST_CONFIG)
         f.write("#define ASCON_MASKED_KEY_SHARES %d\n#define ASCON_MASKED_DATA_SHARES %d\n"
                 "#define ASCON_MASKED_MAX_SHARES %d\n" % shares)
+    # version.h is produced by cmake from src/ascon/version.h.in and the project() version
+    try:
+        tmpl = open(os.path.join(REPO, "src/ascon/version.h.in")).read()
+        m = re.search(r"project\(\s*AsconSuite\s+VERSION\s+(\d+)\.(\d+)\.(\d+)", open(os.path.join(REPO, "CMakeLists.txt")).read())
+        if m:
+            for k, v in zip(("MAJOR", "MINOR", "PATCH"), m.groups()):
+                tmpl = tmpl.replace("@AsconSuite_VERSION_%s@" % k, v)
+        with open(os.path.join(dirpath, "version.h"), "w") as f:
+            f.write(tmpl)
+    except OSError:
+        pass
 
 
 import threading
